@@ -74,6 +74,10 @@ add('C10', 'E-RUN+E-SQLDRV+E-LEX', 'exploration',
     'Every SQL string the real reader sends to the scripted database/sql driver is recorded for 134 string-valued positions (LogQL matchers, line filters, label filters, json paths, regexp, drop, templates; PromQL matchers and match[]; TraceQL attributes; Tempo tags and URL tag names; Pyroscope selectors, type ids and label names; label names in URLs) x hostile strings (quotes, backslash runs, NUL, newlines, comment markers, multi-byte and invalid UTF-8, LIKE wildcards, 64 KiB) rendered in each language\'s own quoting. Oracle: an independent ClickHouse token lexer tokenises the statement for a benign marker and for the hostile string; token kinds and all non-literal token texts must be identical, every statement must lex to completion, and each differing literal must decode (two decoders) to the position\'s documented transform of the string.',
     'Trusted: the lexer E-LEX and its two string decoders (rule A1 and the server decoder), the per-position transform table written from the property text (identity, LIKE pattern meaning contains s, anchored regex for Prometheus/Pyroscope, composite values).',
     'runtime monitoring: differential token-structure comparison of recorded SQL with an independent lexer', 'DESIGN §3 C10')
+add('C11', 'E-RUN+E-SQLDRV+E-CHSQL+E-REF(reftraceql)', 'translation_validation',
+    'Generated TraceQL scripts (nested and/or with parentheses, repeated terms, span./resource./dot prefixes, every operator, aggregators with units, chains of 2-4 selectors, long decimal literals) are parsed back by qryn\'s parser and sent through the real read path (GET /api/search and the v2 tags/values routes -> controller -> service -> planners -> simple and complex request processors, single-node and cluster tables). Every statement qryn issues is executed by the reference ClickHouse-subset interpreter over tables filled the way the writer fills them (missing, numeric and non-numeric values, spans on the window edges); the returned trace and span sets, the limit cut and its recency order are compared with an independent direct TraceQL evaluator under every reading the property text leaves open; a statement ClickHouse would reject, a planner panic and a non-JSON answer are violations by themselves. Violations are minimised and filed under the minimal failing shape; for {A} && {B} the answer is additionally compared with what the implemented row intersection gives, so that known defect has one key.',
+    'Trusted: E-CHSQL (self-tested on a corpus of captured statements), the direct evaluator engines/reftraceql written from the property text, the table filling. Cases on which the readings disagree are probes (counted, not judged). Chains of three or more selectors never execute (known finding), so their semantics are not observed.',
+    'runtime monitoring: translation validation by executing the recorded SQL against a reference interpreter and comparing with a direct evaluator', 'DESIGN §3 C11')
 add('C17', 'E-RUN+E-SQLDRV+E-CHSQL+upstream promql engine', 'exploration',
     'Four monitors: (1) cursor model check - random Seek/Next/At sequences on model.Series iterators against a sequential model of the chunkenc.Iterator contract; (2) Prometheus matcher sets and Pyroscope selectors through the real transpilers, SQL executed by E-CHSQL over generated index tables, selected series compared with Prometheus matcher semantics; (3) CLokiQuerier.Select end to end over the scripted driver (each series once, own labels, samples in range ascending); (4) /api/v1/query_range and /api/v1/query through the real router vs the upstream promql engine over an in-memory reference storage holding the same samples.',
     'Trusted: E-CHSQL, the Prometheus matcher evaluator (cross-checked against labels.Matcher), the pinned upstream promql engine as reference; samples exactly on a window\'s left edge are probes.',
